@@ -537,6 +537,25 @@ impl RuntimeCpuFeatures {
             // TZCNT is typically available with BMI1
             features.has_tzcnt = features.has_bmi1;
         }
+
+        // Verification hook H2: apply the tier cap to the CPUID-based detection as well
+        #[cfg(zipora_verif)]
+        {
+            use crate::verif_hooks::feature_allowed as allowed;
+            features.has_sse41 &= allowed("sse4.1");
+            features.has_sse42 &= allowed("sse4.2");
+            features.has_popcnt &= allowed("popcnt");
+            features.has_avx &= allowed("avx");
+            features.has_avx2 &= allowed("avx2");
+            features.has_bmi1 &= allowed("bmi1");
+            features.has_bmi2 &= allowed("bmi2");
+            features.has_lzcnt &= allowed("lzcnt");
+            features.has_tzcnt &= allowed("bmi1");
+            features.has_avx512f &= allowed("avx512f");
+            features.has_avx512vl &= allowed("avx512vl");
+            features.has_avx512bw &= allowed("avx512bw");
+            features.has_avx512vpopcntdq &= allowed("avx512vpopcntdq");
+        }
     }
     
     /// Enhanced ARM64 feature detection for CpuFeatures  
